@@ -11,20 +11,21 @@ import (
 	rt "github.com/google/inverting-proxy/zzverifrt"
 )
 
-func c17Str(name string) string {
-	s := rt.String(name, rt.Param("idCap", 2))
+func c17Str(name string, cap int) string {
+	s := rt.String(name, cap)
 	// the interesting alphabet: a letter, the separator, the quote and the escape character
 	ok := true
 	for i := 0; i < len(s); i++ {
 		c := s[i]
-		ok = ok && (c == 'a' || c == ':' || c == '"' || c == '\\')
+		ok = ok && (c == 'a' || c == ':' || c == '"' || (rt.Param("backslash", 0) == 1 && c == '\\'))
 	}
 	rt.Assume(ok)
 	return s
 }
 
 func VerifC17Keys() {
-	b1, r1, b2, r2 := c17Str("b1"), c17Str("r1"), c17Str("b2"), c17Str("r2")
+	bc, rc := rt.Param("backendCap", 2), rt.Param("idCap", 2)
+	b1, r1, b2, r2 := c17Str("b1", bc), c17Str("r1", rc), c17Str("b2", bc), c17Str("r2", rc)
 	same := b1 == b2 && r1 == r2
 	if memcacheRequestKey(b1, r1) == memcacheRequestKey(b2, r2) {
 		rt.Cover("C17.equal-request-keys")
